@@ -332,6 +332,16 @@ def r8_the_handler_found_for_the_type_is_the_one_used(ctx):
             n += 1
             R = t['dest']['l']
             d = forward_derived(b, {R}, defs)
+            # the result may be wrapped before it is opened (`Resolution::Dedicated(entry)`): follow it through aggregates
+            grew = True
+            while grew:
+                grew = False
+                for xb, j, st in b.all_assigns():
+                    rv_ = st['rv']
+                    if rv_['k'] == 'agg' and not st['lhs'].get('p') and st['lhs']['l'] not in d and \
+                            any(op_place(o) is not None and op_place(o)['l'] in d for o in rv_['ops']):
+                        d |= forward_derived(b, {st['lhs']['l']}, defs)
+                        grew = True
             opened = set()
             for xb, j, st in b.all_assigns():
                 ops, pls = __import__('pvx.flow', fromlist=['rv_operands']).rv_operands(st['rv'])
